@@ -3,6 +3,9 @@
 import json, os, subprocess
 V = os.path.dirname(os.path.dirname(os.path.abspath(__file__)))
 TEXT = {
+ 'C12': ('structure-ledger monitor: per-(label, CAS) content, T, P and type snapshotted around every representation change, phase-view write and get_data/set_data of a real stream, compared with a relabelling model',
+         'Exploration: seeded histories of 5-30 steps (phases=, phase=, reduce_phases, as_stream, vle/lle/sle accessors, view and parent writes, T/P changes through either side, save/restore) from random distributions over subsets of s,l,g,S,L.',
+         'Target phase sets contain every non-empty phase up to case; solver objects are requested but not called.'),
  'C13': ('structure-ledger monitor: dense snapshots of both objects after every step of copy / copy_like / link / unlink / proxy / mutate histories; sharing decided behaviourally (mutate one side, observe the other); pickle round trips compared field by field',
          'Exploration: seeded cases over copy() independence under 3-10 mutations, the copy_like source/target/package/phase matrix, proxy / flow_proxy / all link flag subsets / unlink, and pickles of Stream, MultiStream, Reaction, ParallelReaction, Chemical, Chemicals, Thermo.',
          'Class-changing conversions on one side of a link are excluded (C12); copy_like targets list every source chemical.'),
